@@ -121,6 +121,14 @@ Example C07_range_nonvacuous :
   = ROk [9; 7; 7].
 Proof. cbv zeta. vm_compute. reflexivity. Qed.
 
+(* the adjacent-range and error-branch theorems on a concrete three-chunk xorb *)
+Example C07_adjacent_ranges_nonvacuous :
+  let lz4c := fun x : list N => x in let lz4d := fun x : list N => Some x in let choose := fun _ : list N => 2 in
+  let rd := get_bytes_by_chunk_range lz4d (built_info lz4c choose (repeat 5 32%nat) [[1; 2; 3]; [9]; [7; 7]] [repeat 1 32%nat; repeat 2 32%nat; repeat 3 32%nat] None)
+                (xorb_serialize lz4c choose (repeat 5 32%nat) [[1; 2; 3]; [9]; [7; 7]] [repeat 1 32%nat; repeat 2 32%nat; repeat 3 32%nat] None) in
+  rd 0 1 = ROk [1; 2; 3] /\ rd 1 3 = ROk [9; 7; 7] /\ rd 0 3 = ROk ([1; 2; 3] ++ [9; 7; 7]) /\ rd 2 2 = RErr /\ rd 3 1 = RErr /\ rd 1 4 = RErr.
+Proof. cbv zeta. vm_compute. repeat split; reflexivity. Qed.
+
 (* non-vacuity: an identity "codec" satisfies the hypothesis; a two-chunk xorb under scheme bg4 *)
 Example C07_nonvacuous :
   let lz4c := fun x : list N => x in let lz4d := fun x : list N => Some x in let choose := fun _ : list N => 2 in
